@@ -298,6 +298,9 @@ def generate_ising(
     agents = {}
     fg_mapping = defaultdict(lambda: [])
     var_mapping = defaultdict(lambda: [])
+    # On a periodic grid with only 2 rows (or columns), the neighbor above and the
+    # neighbor below are the same node: make sure each constraint is only hosted once.
+    hosted_constraints = set()
     for (row, col) in grid_graph.nodes:
         agent = AgentDef(f"a_{row}_{col}")
         agents[agent.name] = agent
@@ -313,9 +316,13 @@ def generate_ising(
             # Sort coordinate to make sure we build the name in the same order as when
             # creating the constraints:
             (r1, c1), (r2, c2) = sorted([(row, col), (left, col)])
-            fg_mapping[agent.name].append(f"cb_v_{r1}_{c1}_v_{r2}_{c2}")
+            if f"cb_v_{r1}_{c1}_v_{r2}_{c2}" not in hosted_constraints:
+                fg_mapping[agent.name].append(f"cb_v_{r1}_{c1}_v_{r2}_{c2}")
+                hosted_constraints.add(f"cb_v_{r1}_{c1}_v_{r2}_{c2}")
             (r1, c1), (r2, c2) = sorted([(row, col), (row, down)])
-            fg_mapping[agent.name].append(f"cb_v_{r1}_{c1}_v_{r2}_{c2}")
+            if f"cb_v_{r1}_{c1}_v_{r2}_{c2}" not in hosted_constraints:
+                fg_mapping[agent.name].append(f"cb_v_{r1}_{c1}_v_{r2}_{c2}")
+                hosted_constraints.add(f"cb_v_{r1}_{c1}_v_{r2}_{c2}")
 
     name = f"Ising_{row_count}_{col_count}_{bin_range}_{un_range}"
     if no_agents:
